@@ -48,6 +48,60 @@ def gc_scenario(sid, hist, typ, rng):
     return sc
 
 
+def readiness_part(v, tier, seed, rng, wd, replay_sc=None):
+    """the real client set (heartbeats, 5 s hysteresis) + the real gateway limiter against stub servers over HTTP, real time, scenarios in parallel"""
+    states = trans = 0
+    if replay_sc is not None:
+        scs = [replay_sc]
+    else:
+        for variant, expect in (("hyst", False), ("sticky", True)):
+            rm = vlib.tlc("limiter", "Readiness", "Readiness.cfg", workers=8, timeout=900, consts={"Variant": '"%s"' % variant, "MaxSteps": 10})
+            if bool(rm.violation) != expect:
+                raise Infra("Readiness.tla variant %s: unexpected result %s" % (variant, rm.violated()))
+            states, trans = states + rm.distinct, trans + rm.generated
+        n = 24 if tier == "quick" else 160
+        g = vlib.tlc("limiter", "ReadinessGen", "ReadinessGen.cfg", workers=1, timeout=600, simulate="num=%d" % (3 * n), depth=6, tlc_seed=seed, consts={"MaxSteps": 4})
+        hs = list({vlib.canon(h): h for h in g.json_prints("HIST")}.values())
+        rng.shuffle(hs)
+        if len(hs) < 10:
+            raise Infra("too few readiness histories")
+        scs = []
+        for i, h in enumerate(hs[:n]):
+            # one element of the history lasts a number of seconds; failures are also made long enough to cross the hysteresis
+            ph = [{"mode": ("hang" if (m == "fail" and (i + k) % 3 == 0) else m), "sec": (rng.choice([2, 11, 12]) if m == "fail" else rng.choice([1, 3, 7]))} for k, m in enumerate(h)]
+            scs.append({"id": 800001 + i, "phases": ph})
+    binp = os.path.join(wd, "csets")
+    vlib.go_build("./cmd/csets", binp)
+    tin, tout = os.path.join(wd, "cs-in.ndjson"), os.path.join(wd, "cs-out.ndjson")
+    out = []
+    for b in range(0, len(scs), 40):     # 40 scenarios at a time
+        vlib.write_ndjson(tin, scs[b:b + 40])
+        r = vlib.run([binp, tin, tout], timeout=600)
+        if r.returncode != 0:
+            raise Infra("csets failed: " + r.stderr[-1500:])
+        out += vlib.read_ndjson(tout)
+    tr_p = os.path.join(wd, "readiness.ndjson")
+    for t in out:
+        for e in t["events"]:
+            e.setdefault("mode", "")
+    vlib.write_ndjson(tr_p, out)
+    tv = vlib.tlc("limiter", "TraceReadiness", "TraceReadiness.cfg", workers=8, timeout=1800,
+                  consts={"TraceFile": '"%s"' % tr_p, "Local": 3, "Global": 10, "Quota": 7, "FailAfter": 9500, "OkAfter": 6000})
+    by_id = {str(t["id"]): t for t in out}
+    sc_by_id = {str(s["id"]): s for s in scs}
+    nrej = 0
+    for l in tv.out.splitlines():
+        if l.startswith('<<"REJECT"'):
+            parts = [x.strip() for x in l.strip("<>").split(",")]
+            sid, line = parts[1], int(parts[2])
+            nrej += 1
+            evs = by_id[sid]["events"]
+            v.violation("readiness-%s" % sid, {"scenario": sc_by_id[sid], "kind": "readiness", "rejected_sample": evs[line - 1], "modes": [e for e in evs[:line] if e["k"] == "mode"],
+                                               "what": "more than the global limit admitted / a server failing for more than 9.5 s still counted as ready or the local limit was not in force / an answering server's quota not in force after 6 s"})
+    samples = sum(1 for t in out for e in t["events"] if e["k"] == "sample")
+    return states + tv.distinct, trans + tv.generated, samples, len(out) - nrej
+
+
 def main(tier, replay):
     t0 = time.time()
     seed = vlib.seed()
@@ -56,6 +110,13 @@ def main(tier, replay):
     v = vlib.Verdict(PROP)
     try:
         states = trans = 0
+        rsamples = rtraces = 0
+        if replay and json.load(open(replay)).get("kind") == "readiness":
+            readiness_part(v, tier, seed, rng, wd, replay_sc=json.load(open(replay))["scenario"])
+            return v.finish()
+        if not replay:
+            rs, rt, rsamples, rtraces = readiness_part(v, tier, seed, rng, wd)
+            states, trans = states + rs, trans + rt
         if replay:
             scs = [json.load(open(replay))["scenario"]]
         else:
@@ -132,8 +193,8 @@ def main(tier, replay):
                                            "what": "measured admission exceeds the global limit / is not the local limit while the server is unusable / a usable quota did not take effect"})
         rc = v.finish()
         ms = [e for t in tl for e in t["events"] if e["k"] == "measure"]
-        cov = {"states": states + tv.distinct, "transitions": trans + tv.generated, "traces_validated_against_impl": len(tl) - len(rejected),
-               "samples": [tl[0]["events"][:8]], "evaluations": len(ms), "distinct_nontrivial": len({vlib.canon(t["events"]) for t in tl}),
+        cov = {"states": states + tv.distinct, "transitions": trans + tv.generated, "traces_validated_against_impl": len(tl) - len(rejected) + rtraces,
+               "samples": [tl[0]["events"][:8]], "evaluations": len(ms) + rsamples, "readiness_samples_real_clientset": rsamples, "distinct_nontrivial": len({vlib.canon(t["events"]) for t in tl}),
                "rule": "one evaluation = one admission measurement on the real gateway limiter; histories: TLC -simulate over RemoteClient.tla (replies -300,-1,0,1,L,L+1,G,G+1,25G, reply errors, readiness flaps), "
                        "max-in-flight and token-bucket schemas, plus 'no client set' and 'leader unknown'",
                "checker_cmd": "tlc RemoteClient.tla; tlc -simulate RemoteClientGen.tla; tlc TraceRemote.tla", "exhaustive": False}
@@ -142,7 +203,9 @@ def main(tier, replay):
                              "so that 'max(peak in flight, local)' is the local limit; the scripted server answers every acquire call the same way until the next change; token-bucket schemas are judged by their "
                              "window bounds only (global bound always, local bound while failing)",
                              "the global-count wrappers leak one goroutine per timed-out waitAcquire; the harness recovers the bubble's end-of-test deadlock report for exactly that reason",
-                             "ClientSets is a harness implementation of the exported interface (readiness scripted); the real client set's heartbeat hysteresis is not exercised"])
+                             "histories: ClientSets is a harness implementation of the exported interface (readiness scripted). Readiness part: the REAL client set (heartbeats, 5 s hysteresis, server list sync) and the real "
+                             "limiter against stub servers over HTTP in real time (Readiness.tla histories, scenarios in parallel); its bounds are the implementation's periods plus margin: failing > 9.5 s => not ready and local limit, "
+                             "answering > 6 s => ready and quota in force"])
         return rc
     finally:
         shutil.rmtree(wd, ignore_errors=True)
